@@ -63,9 +63,14 @@ PROPS = {
     },
     "C10": {
         "level": "exploration",
-        "tests": [T("TestC10Remerge", "fleet", 800, 96000, shards=16, qshards=4)],
+        "tests": [
+            T("TestC10Remerge", "fleet", 800, 96000, shards=16, qshards=4),
+            T("TestC10Loop", "fleet", 120, 12000, shards=16, qshards=4, procs=4),
+        ],
         "assumptions": [
-            "part A (direct driver) only so far: re-merging merged content; the real-loop store counting (part B) is added with the scheduler",
+            "part A (direct driver): re-merging merged content commits nothing; part B (real loops under the scheduler): uploads are counted in a write-free phase of 2N+2 rounds",
+            "'bounded number of exchanges' is decided as: at most an in-flight and one pending upload per instance, none from the third round on",
+            "storage_force_snapshot_interval = 0 (no forced snapshots)",
             "DBIs without the dupsort hack",
         ],
     },
@@ -153,7 +158,10 @@ PROPS = {
     },
     "C12": {
         "level": "exploration",
-        "tests": [T("TestC12Cleaner", "recv", 20000, 3200000, shards=16)],
+        "tests": [
+            T("TestC12Cleaner", "recv", 20000, 3200000, shards=16),
+            T("TestC12ReceiveOnly", "fleet", 60, 6000, shards=8, qshards=2, procs=4),
+        ],
         "assumptions": [
             "names of one instance appear in timestamp order and never re-appear after deletion (the property's stated domain)",
             "merge-commit notifications are monotone per instance, as the sync loop produces them",
@@ -179,7 +187,10 @@ PROPS = {
     },
     "C16": {
         "level": "exploration",
-        "tests": [T("TestC16Receiver", "recv", 160, 16000, shards=16, qshards=4, procs=4)],
+        "tests": [
+            T("TestC16Receiver", "recv", 160, 16000, shards=16, qshards=4, procs=4),
+            T("TestC16RunOnce", "fleet", 150, 16000, shards=16, qshards=4, procs=4),
+        ],
         "assumptions": [
             "'eventually delivered' is decided in bounded form: with faults off, a frozen bucket and a draining consumer every other instance's newest decodable snapshot must arrive within 10 s of polling at 1 ms intervals; if the process itself was starved of CPU (heartbeat goroutine) the case is inconclusive, not a violation",
             "the memory limits are observed through the lightningstream_climit_active gauges; the gauge is decremented just after the token is returned, so only an overshoot that persists over 4 samples counts",
